@@ -91,10 +91,13 @@ func execSym(f []string) string {
 // seen, or small random ones). Each goroutine records (op, arg, result) in program order; the history is
 // printed goroutine by goroutine as `actor op arg res` lines. All goroutines start together.
 func symStress(args []string) int {
-	if len(args) != 4 {
-		fmt.Fprintln(os.Stderr, "usage: elkh symstress G N NAMES SEED")
+	if len(args) != 4 && len(args) != 5 {
+		fmt.Fprintln(os.Stderr, "usage: elkh symstress G N NAMES SEED [lockstep]")
 		return 2
 	}
+	// lockstep: every goroutine interns the same sequence of fresh names in the same order, so that all
+	// of them race on each name's first Add (a check-then-act race in Add shows as two ids for one name)
+	lockstep := len(args) == 5 && args[4] == "lockstep"
 	g, _ := strconv.Atoi(args[0])
 	n, _ := strconv.Atoi(args[1])
 	names, _ := strconv.Atoi(args[2])
@@ -128,6 +131,8 @@ func symStress(args []string) int {
 				x := rng.Intn(100)
 				var op, arg string
 				switch {
+				case lockstep && x < 70:
+					op, arg = "a", hex.EncodeToString([]byte("fresh_"+strconv.Itoa(k+rng.Intn(2))))
 				case x < 60:
 					op, arg = "a", hex.EncodeToString([]byte(pool[rng.Intn(names)]))
 				case x < 75:
